@@ -1,5 +1,5 @@
 (* C16 — concurrent requests are race-free and do not undo or double-spend. *)
-From KM Require Import Base.Bytes Model.Conc Proofs.Conc Proofs.ConcExplore Proofs.ConcAnswer.
+From KM Require Import Base.Bytes Model.Conc Proofs.Conc Proofs.ConcExplore Proofs.ConcAnswer Proofs.ConcProgress.
 Open Scope N_scope.
 
 (* Lock discipline gives freedom from data races on the shared maps: for ANY pool of programs in
@@ -153,3 +153,19 @@ Theorem c16_lock_copy_refuted :
   (exists sched, data_race (run copy_w0 sched)) /\
   (forall n, run copy_born_locked (repeat 0%nat n) = copy_born_locked).
 Proof. exact lock_copy. Qed.
+
+(* ---- nobody waits for ever --------------------------------------------------------------------------
+   Any pool of disciplined programs, any initial state, ANY schedule: whenever a request stands at `Lock l`
+   and finds the mutex taken, the owner is ANOTHER request of the pool that is inside its critical section:
+   it holds l, its next action is not a Lock (it waits for nobody: no nesting), and the Unlock l is still
+   ahead of it.  (c16_lock_copy_refuted shows the opposite for a lock that is a private copy; the harness
+   holds each mutex of the real state as "the other request" and expects every request to be served after
+   the release: C16:hang:<handler>.) *)
+Theorem c16_blocked_only_by_running_request : forall d s progs sched i t l r,
+  Forall (fun p => disciplined p = true) progs ->
+  let w := run (init_world d s progs) sched in
+  nth_error (threads w) i = Some t -> prog t = Lock l :: r ->
+  forall j, owner_of l (owner w) = Some j ->
+  j <> i /\ exists tj, nth_error (threads w) j = Some tj /\ held tj = Some l /\
+    In (Unlock l) (prog tj) /\ (forall l' r', prog tj <> Lock l' :: r').
+Proof. exact blocked_by_runnable. Qed.
